@@ -196,7 +196,7 @@ func commitVersionChecks(c *q.Ctx) {
 	}
 	vo := c.Fn(xm + "(*XModel).verifyOutputs")
 	if vo != nil {
-		c.Guard(vo, q.Cond{Canon: "newmap<map[string]bool>[xmodel.makeRawKey(p1.TxOutputsExt[].Bucket,p1.TxOutputsExt[].Key)]", Sense: false}, q.ToSuccess(), q.Opt{})
+		c.Guard(vo, q.Cond{Canon: "has(newmap<map[string]bool>,xmodel.makeRawKey(p1.TxOutputsExt[].Bucket,p1.TxOutputsExt[].Key))", Sense: false}, q.ToSuccess(), q.Opt{})
 		c.Guard(vo, q.Cond{Canon: "(nil == p1.TxOutputsExt[].Value)", Sense: true}, q.ToSuccess(), q.Opt{})
 	}
 	gu := c.Fn(xm + "(*XModel).GetUncommited")
